@@ -160,6 +160,41 @@ pub fn scenario(t: &mut Tape, strict_only: bool, dup: u32) -> (GProg, std::colle
         definer_stanzas.push(Item::Stanza(Stanza { id: ids.next(), query: "(attribute) @at".into(), captures: vec![Cap { name: "at".into(), quant: Quant::One }], body: vec![define], pool: usize::MAX }));
         definer_is_outer.push(false);
     }
+    // a definer whose definitions all sit in a `for` body: every top-level statement of the
+    // module gets the name through the loop variable
+    let mut loopdef_reader: Option<Item> = None;
+    if t.chance(1, 5) {
+        // a name of its own, inherited, defined nowhere else
+        let name = "loopdef".to_string();
+        items.push(Item::Inherit { name: name.clone() });
+        let rd = Stmt::AttrNode {
+            id: ids.next(),
+            node: Expr::Scoped { id: ids.next(), scope: Box::new(Expr::Capture { id: ids.next(), name: "lx".into() }), name: "n".into() },
+            attrs: vec![Attr { name: "from_loop".into(), value: Some(Expr::Scoped { id: ids.next(), scope: Box::new(Expr::Capture { id: ids.next(), name: "lx".into() }), name: name.clone() }) }],
+        };
+        loopdef_reader = Some(Item::Stanza(Stanza { id: ids.next(), query: "(identifier) @lx".into(), captures: vec![Cap { name: "lx".into(), quant: Quant::One }], body: vec![rd], pool: usize::MAX }));
+        features.insert("definition-inside-a-for-body");
+        let body = vec![Stmt::For {
+            id: ids.next(),
+            var_id: ids.next(),
+            var: "st".into(),
+            value: Expr::Capture { id: ids.next(), name: "stmts".into() },
+            body: vec![Stmt::Let { id: ids.next(), var: VarRef::Scoped { id: ids.next(), scope: Expr::Var { id: ids.next(), name: "st".into() }, name: name.clone() }, value: Expr::Call { func: "format".into(), args: vec![Expr::Str(format!("{}@stmt:{{}}", name)), Expr::Call { func: "start-row".into(), args: vec![Expr::Var { id: ids.next(), name: "st".into() }] }] } }],
+        }];
+        definer_stanzas.push(Item::Stanza(Stanza { id: ids.next(), query: "(module (_)* @stmts)".into(), captures: vec![Cap { name: "stmts".into(), quant: Quant::Star }], body, pool: usize::MAX }));
+        definer_is_outer.push(true);
+    }
+    // a definition whose value is the same name on another node: the callee identifier of a call
+    // takes over what the call node has
+    if t.chance(1, 5) {
+        let name = names[t.choose(names.len())].clone();
+        features.insert("value-is-the-same-name-on-another-node");
+        let value = Expr::Scoped { id: ids.next(), scope: Box::new(Expr::Capture { id: ids.next(), name: "cl".into() }), name: name.clone() };
+        let value = if t.chance(1, 3) { Expr::List(vec![value]) } else { value };
+        let copy = Stmt::Let { id: ids.next(), var: VarRef::Scoped { id: ids.next(), scope: Expr::Capture { id: ids.next(), name: "fn".into() }, name: name.clone() }, value };
+        definer_stanzas.push(Item::Stanza(Stanza { id: ids.next(), query: "(call function: (identifier) @fn) @cl".into(), captures: vec![Cap { name: "fn".into(), quant: Quant::One }, Cap { name: "cl".into(), quant: Quant::One }], body: vec![copy], pool: usize::MAX }));
+        definer_is_outer.push(false);
+    }
     // a definer that puts one name on two captured nodes of a match
     if t.chance(1, 4) {
         let name = names[t.choose(names.len())].clone();
@@ -268,6 +303,9 @@ pub fn scenario(t: &mut Tape, strict_only: bool, dup: u32) -> (GProg, std::colle
             vec![probe(&mut ids, target, via_link)]
         };
         reader_stanzas.push(Item::Stanza(Stanza { id: ids.next(), query: pattern.to_string(), captures: cq.captures.clone(), body, pool: usize::MAX }));
+    }
+    if let Some(r) = loopdef_reader {
+        reader_stanzas.push(r);
     }
     // order: definers, base, link, readers; outside the fragment any order (strict may then fail)
     let mut stanzas: Vec<Item> = vec![];
